@@ -246,3 +246,50 @@ Example C06_instance_mid :
    ([Copy 3], []); ([], []); ([Copy 3], []); ([], []); ([BareAck 7], [(3, 0, 69)])]
   /\ pending_wait (base (mfinal c minit [Base (Send 1 [1] None)])) 1.
 Proof. split; [vm_compute; reflexivity|]. split; [eexists; split; [left; reflexivity|repeat split]|reflexivity]. Qed.
+
+(* ---------- housekeeping ticks with a stale timestamp (Retx/ModelStale.v) ----------
+   "all housekeeping-tick timings relative to ACK_TIMEOUT": CheckExpirations(now) is handed the time at which
+   the tick started; [stale_tick ms] is a tick whose stamp lies ms before the present (for any ms, also more
+   than the age of a pending request: stamped before its first transmission). *)
+From GoCoap Require Import Retx.ModelStale Retx.ProofsStale.
+
+(* in ANY state: a copy goes out only for a pending entry that is not exhausted and whose age, seen with the
+   stale stamp, exceeds (count+1) x ACK_TIMEOUT *)
+Theorem C06_stale_tick_resend_rule : forall c s ms id,
+  In (Copy id) (concat (map o_emit (outs c s (stale_tick ms)))) ->
+  exists p, In p (pending s) /\ p_id p = id /\ p_count p < max_rt c /\
+            ack_ms c * (p_count p + 1) < p_elapsed p - ms.
+Proof. exact stale_tick_resend_rule. Qed.
+Print Assumptions C06_stale_tick_resend_rule.
+
+(* "the k-th copy no earlier than k x ACK_TIMEOUT after the first" holds of the TRUE elapsed time whatever the
+   staleness ms >= 0 of the stamp *)
+Theorem C06_stale_tick_never_early : forall c s ms id, 0 <= ms ->
+  In (Copy id) (concat (map o_emit (outs c s (stale_tick ms)))) ->
+  exists p, In p (pending s) /\ p_id p = id /\ p_count p < max_rt c /\
+            ack_ms c * (p_count p + 1) < p_elapsed p.
+Proof. exact stale_tick_never_early. Qed.
+Print Assumptions C06_stale_tick_never_early.
+
+(* a tick stamped no later than the first transmission of every pending request puts nothing on the wire *)
+Theorem C06_stale_tick_before_start_silent : forall c s ms, 0 <= ack_ms c -> inv_count c s ->
+  (forall p, In p (pending s) -> p_elapsed p <= ms) ->
+  concat (map o_emit (outs c s (stale_tick ms))) = [].
+Proof. exact stale_tick_before_start_silent. Qed.
+Print Assumptions C06_stale_tick_before_start_silent.
+
+(* and the counter bound (hence the bound on the number of copies) survives stale ticks *)
+Theorem C06_stale_tick_keeps_bound : forall c s ms, 0 <= max_rt c -> inv_count c s ->
+  inv_count c (final c s (stale_tick ms)).
+Proof. exact stale_tick_keeps_bound. Qed.
+Print Assumptions C06_stale_tick_keeps_bound.
+
+(* non-vacuity: a request, a tick stamped 6 s before its first transmission (nothing), 2.5 s later a tick stamped
+   5 s back (nothing) and a punctual one (the first re-send), another 2.5 s later a tick stamped 0.5 s back:
+   4.5 s > 2 x ACK_TIMEOUT by its stamp, the second re-send *)
+Example C06_instance_stale :
+  let c := {| ack_ms := 2000; max_rt := 4; nstart := 1 |} in
+  let evs := [Send 1 [1] None] ++ stale_tick 6000 ++ [Age 2500] ++ stale_tick 5000 ++ [Tick; Age 2500] ++ stale_tick 500 in
+  concat (map o_emit (outs c init evs)) = [Copy 1; Copy 1; Copy 1] /\
+  concat (map o_emit (outs c init ([Send 1 [1] None] ++ stale_tick 6000 ++ [Age 2500] ++ stale_tick 5000))) = [Copy 1].
+Proof. split; vm_compute; reflexivity. Qed.
